@@ -350,6 +350,8 @@ def run(prop, tier, seed, rep, std=True):
             rep.mismatch(owner, v["cls"], field, {"kind": "track", "history": hists[hi], "step_event_index": v["index"] - starts[hi],
                                                   "event": ev})
     json.dump(summary, open(os.path.join(core.BUILD, f"last_{prop}_verdicts.json"), "w"), indent=1, sort_keys=True)
+    if tier == "thorough":
+        selftest(prop, rep, groups)
     nsteps = sum(len(h["steps"]) for h in hists)
     kinds = {}
     for e in events:
@@ -362,3 +364,37 @@ def run(prop, tier, seed, rep, std=True):
                    {"history": hists[n_model]["id"], "first_events": [e for e in groups[n_model][:3]]}]
     rep.assumptions += ["expiry is driven by the guarded hook Airplanes::verif_backdate (integer seconds); histories that took 0.9 s or longer are repeated",
                         "distances judged with 5 m + 1e-6 d tolerance; threshold decisions have a 25 m guard band; positions 3 micro-degrees"]
+
+
+def selftest(prop, rep, groups):
+    """corrupt one recorded value in a recorded history and require TLC to flag that step for this property"""
+    def find(pred):
+        for g in groups:
+            for i, e in enumerate(g):
+                if pred(e):
+                    return g, i
+        raise core.ToolError("anti-vacuity: no suitable recorded step")
+    if prop == "C12":
+        g, i = find(lambda e: e["ev"] == "action" and e["outcome"] == "ok" and e["planes"])
+        mut = lambda e: (e["planes"][0].update(n=e["planes"][0]["n"] + 1), e)[1]
+    elif prop == "C13":
+        g, i = find(lambda e: e["ev"] == "action" and any(p["pos"]["some"] == 1 and p["n"] >= 2 for p in e["planes"])
+                    and bytes(e["bytes"][1:4]) in [p["addr"].to_bytes(3, "big") for p in e["planes"] if p["pos"]["some"] == 1]
+                    and (e["bytes"][4] >> 3) in list(range(9, 19)) + [20, 21, 22])
+        def mut(e):
+            for p in e["planes"]:
+                if p["addr"].to_bytes(3, "big") == bytes(e["bytes"][1:4]):
+                    p["pos"]["lat"] += 400
+            return e
+    elif prop == "C14":
+        g, i = find(lambda e: e["ev"] == "action" and any(p["hascs"] == 1 for p in e["planes"]) and (e["bytes"][0] >> 3) in (17, 18)
+                    and 1 <= (e["bytes"][4] >> 3) <= 4)
+        def mut(e):
+            for p in e["planes"]:
+                if p["addr"].to_bytes(3, "big") == bytes(e["bytes"][1:4]):
+                    p["cs"] = [90] + p["cs"]
+            return e
+    else:
+        g, i = find(lambda e: e["ev"] == "prune" and len(e["planes"]) >= 1)
+        mut = lambda e: (e["planes"].pop(), e)[1]
+    core.anti_vacuity(rep, "Trace_Tracker", g, [(i, mut, prop)], boundary=lambda e: e["ev"] == "reset", name=f"{prop}-selftest")
